@@ -1,11 +1,12 @@
 // Driver for C20: codec results must not depend on call history or concurrency.
 //
 // Every job runs in a FRESH CHILD PROCESS (cold plan caches): the parent test re-executes its own binary.
-//   reference  each distinct call alone in its own process -> digest (and the document, used as decode input)
-//   history    one goroutine, a permutation of calls (every order of first use), fresh or reused+cleared encoder
-//   gated      several goroutines under the gate controller (hooks at cache miss / store), released in an order
-//              compiled from a TLC behaviour of spec/CodecCache.tla; the cache events are recorded
-//   free       many goroutines, real scheduler (the binary may be built with -race)
+//
+//	reference  each distinct call alone in its own process -> digest (and the document, used as decode input)
+//	history    one goroutine, a permutation of calls (every order of first use), fresh or reused+cleared encoder
+//	gated      several goroutines under the gate controller (hooks at cache miss / store), released in an order
+//	           compiled from a TLC behaviour of spec/CodecCache.tla; the cache events are recorded
+//	free       many goroutines, real scheduler (the binary may be built with -race)
 package codec
 
 import (
@@ -39,7 +40,7 @@ type Call struct {
 	// NoClear: the reused encoder is not cleared: the message is appended to what the encoder already holds (binary only);
 	// the header of every message sets the version register before anything gated is written
 	NoClear bool   `json:"noclear"`
-	Input string `json:"input,omitempty"` // hex document for dec
+	Input   string `json:"input,omitempty"` // hex document for dec
 }
 
 func (c Call) Key() string {
@@ -128,6 +129,10 @@ func buildMsg(kind string, v int) any {
 			ResponsePayload: &payloads.QueryResponsePayload{Operations: []kmip.Operation{kmip.OperationGet}, VendorIdentification: "v",
 				ExtensionInformation: []kmip.ExtensionInformation{{ExtensionName: "x"}}, AttestationType: []kmip.AttestationType{kmip.AttestationTypeTPMQuote},
 				CapabilityInformation: []kmip.CapabilityInformation{{StreamingCapability: ptr(true), BatchUndoCapability: ptr(false)}}}}}}
+	case "Poison":
+		// an encoding that panics in the middle of a nested structure (negative interval); the caller recovers
+		return &kmip.ResponseMessage{Header: sh, BatchItem: []kmip.ResponseBatchItem{{Operation: kmip.OperationObtainLease,
+			ResponsePayload: &payloads.ObtainLeaseResponsePayload{UniqueIdentifier: "id", LeaseTime: -time.Second}}}}
 	case "RespLocate":
 		return &kmip.ResponseMessage{Header: sh, BatchItem: []kmip.ResponseBatchItem{{Operation: kmip.OperationLocate,
 			ResponsePayload: &payloads.LocateResponsePayload{LocatedItems: ptr(int32(2)), UniqueIdentifier: []string{"a", "b"}}}}}
@@ -410,9 +415,38 @@ func TestParent(t *testing.T) {
 	var mu sync.Mutex
 	var wg sync.WaitGroup
 	sem := make(chan struct{}, 12)
+	// every (message kind, version, encoding) that occurs in the jobs, and the six base kinds at 1.0 .. 1.4
+	type triple struct {
+		kind string
+		v    int
+		enc  string
+	}
+	seen := map[triple]bool{}
+	var triples []triple
+	addT := func(t triple) {
+		if !seen[t] && t.kind != "Poison" {
+			seen[t] = true
+			triples = append(triples, t)
+		}
+	}
 	for _, kind := range MsgKinds {
 		for v := 0; v <= 4; v++ {
 			for _, enc := range []string{"ttlv", "xml", "json"} {
+				addT(triple{kind, v, enc})
+			}
+		}
+	}
+	for _, pj := range jobs {
+		for _, p := range pj.Job.Procs {
+			for _, c := range p {
+				addT(triple{c.Msg, c.Ver, c.Enc})
+			}
+		}
+	}
+	for _, tr := range triples {
+		{
+			{
+				kind, v, enc := tr.kind, tr.v, tr.enc
 				wg.Add(1)
 				n++
 				go func(n int) {
@@ -479,6 +513,9 @@ func TestParent(t *testing.T) {
 				probs = append(probs, map[string]any{"kind": kind, "detail": msg})
 			}
 			for _, r := range co.Results {
+				if strings.HasPrefix(r.Key, "Poison/") {
+					continue // a call that is meant to fail in the middle of a message
+				}
 				if r.Err != "" {
 					probs = append(probs, map[string]any{"kind": "call-failed", "key": r.Key, "detail": r.Err})
 				} else if want, ok := refOut[r.Key]; ok && want != r.Digest {
